@@ -58,6 +58,8 @@ type Exec struct {
 	funcsSeen  map[string]bool
 	lemmaErrors []string
 	pure        int
+	tagIds      map[string]int
+	arrTypes    map[string]types.Type
 }
 
 func newExec(prog *ssa.Program, fset *token.FileSet) *Exec {
@@ -111,15 +113,105 @@ func (x *Exec) sortOf(T types.Type) string { return x.reg.sortOf(T) }
 
 func (x *Exec) heapName(objT types.Type) (string, string) {
 	s := x.sortOf(objT)
+	x.recordArrType("H_"+sortId(s), objT)
 	return "H_" + sortId(s), "(Array Int " + s + ")"
 }
+
+func (x *Exec) recordArrType(name string, T types.Type) {
+	if x.arrTypes == nil {
+		x.arrTypes = map[string]types.Type{}
+	}
+	if _, ok := x.arrTypes[name]; !ok {
+		x.arrTypes[name] = T
+	}
+}
+
+// refBound: "every reference inside value v (of type T) that existed at function entry points to
+// an object that existed at function entry" -- well-formedness of the initial heap.
+func (x *Exec) refBound(v string, T types.Type, depth int) string {
+	switch u := T.Underlying().(type) {
+	case *types.Pointer, *types.Map:
+		return and(app("<=", "0", v), app("<", v, "alloc0"), x.tagFact(v, T))
+	case *types.Slice:
+		return and(app("<=", "0", app("s_arr", v)), app("<", app("s_arr", v), "alloc0"), x.tagFact(app("s_arr", v), T))
+	case *types.Struct:
+		if depth > 1 {
+			return "true"
+		}
+		si := x.structInfo(T)
+		var parts []string
+		for i, f := range si.fields {
+			parts = append(parts, x.refBound(app(f, v), si.ftypes[i], depth+1))
+		}
+		_ = u
+		return and(parts...)
+	}
+	return "true"
+}
+
+func (x *Exec) initialHeapAxioms(name, init string) {
+	T, ok := x.arrTypes[name]
+	if !ok {
+		return
+	}
+	switch {
+	case strings.HasPrefix(name, "H_"):
+		if b := x.refBound("(select "+init+" r)", T, 0); b != "true" {
+			x.reg.axioms = appendUniq(x.reg.axioms, "(assert (forall ((r Int)) (! "+b+" :pattern ((select "+init+" r)))))")
+		}
+	case strings.HasPrefix(name, "A_"):
+		if b := x.refBound("(select (select "+init+" r) i)", T, 0); b != "true" {
+			x.reg.axioms = appendUniq(x.reg.axioms, "(assert (forall ((r Int) (i Int)) (! "+b+" :pattern ((select (select "+init+" r) i)))))")
+		}
+	case strings.HasPrefix(name, "MV_"):
+		mt := T.Underlying().(*types.Map)
+		ks := x.sortOf(mt.Key())
+		if b := x.refBound("(select (select "+init+" r) k)", mt.Elem(), 0); b != "true" {
+			x.reg.axioms = appendUniq(x.reg.axioms, "(assert (forall ((r Int) (k "+ks+")) (! "+b+" :pattern ((select (select "+init+" r) k)))))")
+		}
+	}
+}
+// typeId names a Go type for heap partitioning: values of different Go types never alias, so
+// backing arrays and maps are split by element / key / value type (not merely by SMT sort).
+func (x *Exec) typeId(T types.Type) string {
+	switch u := T.(type) {
+	case *types.Named:
+		if _, isStruct := u.Underlying().(*types.Struct); isStruct {
+			return sortId(x.sortOf(T))
+		}
+		if _, isIface := u.Underlying().(*types.Interface); isIface {
+			return "iface"
+		}
+		return x.typeId(u.Underlying())
+	case *types.Alias:
+		return x.typeId(types.Unalias(u))
+	case *types.Pointer:
+		return "p" + x.typeId(u.Elem())
+	case *types.Slice:
+		return "s" + x.typeId(u.Elem())
+	case *types.Map:
+		return "m" + x.typeId(u.Key()) + "_" + x.typeId(u.Elem())
+	case *types.Basic:
+		return u.Name()
+	case *types.Interface:
+		return "iface"
+	case *types.Signature:
+		return "func"
+	case *types.Struct:
+		return sortId(x.sortOf(T))
+	}
+	return sortId(x.sortOf(T))
+}
+
 func (x *Exec) arrName(elemT types.Type) (string, string) {
 	s := x.sortOf(elemT)
-	return "A_" + sortId(s), "(Array Int (Array Int " + s + "))"
+	x.recordArrType("A_"+sanitize(x.typeId(elemT)), elemT)
+	return "A_" + sanitize(x.typeId(elemT)), "(Array Int (Array Int " + s + "))"
 }
 func (x *Exec) mapNames(m *types.Map) (dom, val, ks, vs string) {
 	ks, vs = x.sortOf(m.Key()), x.sortOf(m.Elem())
-	id := sortId(ks) + "_" + sortId(vs)
+	id := sanitize(x.typeId(m.Key()) + "_" + x.typeId(m.Elem()))
+	x.recordArrType("MV_"+id, m)
 	return "MD_" + id, "MV_" + id, ks, vs
 }
 
@@ -134,6 +226,14 @@ func (x *Exec) getArr(st *State, name, sortS string) string {
 		if strings.HasPrefix(name, "MD_") {
 			ks := strings.TrimSuffix(strings.TrimPrefix(sortS, "(Array Int (Array "), " Bool))")
 			x.reg.axioms = appendUniq(x.reg.axioms, "(assert (= (select "+init+" 0) ((as const (Array "+ks+" Bool)) false)))")
+		}
+		x.initialHeapAxioms(name, init)
+		if strings.HasPrefix(name, "MD_") {
+			// len(m) == 0 exactly when m has no keys (initial heap)
+			x.getArr(st, "MC", "(Array Int Int)")
+			ks := strings.TrimSuffix(strings.TrimPrefix(sortS, "(Array Int (Array "), " Bool))")
+			x.reg.axioms = appendUniq(x.reg.axioms, "(assert (forall ((r Int)) (! (=> (= (select MC_0 r) 0) (= (select "+init+" r) ((as const (Array "+ks+" Bool)) false))) :pattern ((select "+init+" r)))))")
+			x.reg.axioms = appendUniq(x.reg.axioms, "(assert (forall ((r Int) (k "+ks+")) (! (=> (select (select "+init+" r) k) (>= (select MC_0 r) 1)) :pattern ((select (select "+init+" r) k)))))")
 		}
 		if name == "MC" {
 			x.reg.axioms = appendUniq(x.reg.axioms, "(assert (= (select MC_0 0) 0))")
@@ -157,6 +257,46 @@ func (x *Exec) setArr(st *State, name, sortS, term string) {
 func (x *Exec) allocRef(st *State) string {
 	r := st.allocCtr
 	st.allocCtr = x.define(st, "alloc", "Int", app("+", r, "1"))
+	return r
+}
+
+// Objects of different Go types are different objects: every reference carries the tag of its
+// type (rtype), so two references of different types are provably distinct.
+func (x *Exec) typeTag(T types.Type) string {
+	id := ""
+	switch u := T.Underlying().(type) {
+	case *types.Pointer:
+		id = "p" + x.typeId(u.Elem())
+	case *types.Map:
+		id = x.typeId(T)
+	case *types.Slice:
+		id = "arr" + x.typeId(u.Elem())
+	case *types.Array:
+		id = "arr" + x.typeId(u.Elem())
+	default:
+		id = x.typeId(T)
+	}
+	if x.tagIds == nil {
+		x.tagIds = map[string]int{}
+	}
+	n, ok := x.tagIds[id]
+	if !ok {
+		n = len(x.tagIds) + 1
+		x.tagIds[id] = n
+	}
+	return fmt.Sprint(n)
+}
+
+func (x *Exec) tagFact(ref string, T types.Type) string {
+	x.reg.declFun("rtype", "(Int) Int")
+	return implies(not(eq(ref, "0")), eq(app("rtype", ref), x.typeTag(T)))
+}
+
+// allocRefT allocates a fresh object of (reference) type T.
+func (x *Exec) allocRefT(st *State, T types.Type) string {
+	r := x.allocRef(st)
+	x.reg.declFun("rtype", "(Int) Int")
+	x.assume(st, eq(app("rtype", r), x.typeTag(T)))
 	return r
 }
 
@@ -284,10 +424,10 @@ func (x *Exec) assumeTypeInv(st *State, s string, T types.Type) {
 	case *types.Slice:
 		x.assume(st, and(app("<=", "0", app("s_off", s)), app("<=", "0", app("s_len", s)), app("<=", app("s_len", s), app("s_cap", s)),
 			app("<=", "0", app("s_arr", s)), app("<", app("s_arr", s), st.allocCtr),
-			app("<=", app("+", app("s_off", s), app("s_cap", s)), "9223372036854775807"),
+			app("<=", app("+", app("s_off", s), app("s_cap", s)), "9223372036854775807"), x.tagFact(app("s_arr", s), T),
 			implies(eq(app("s_arr", s), "0"), eq(app("s_cap", s), "0"))))
 	case *types.Pointer, *types.Map:
-		x.assume(st, and(app("<=", "0", s), app("<", s, st.allocCtr)))
+		x.assume(st, and(app("<=", "0", s), app("<", s, st.allocCtr), x.tagFact(s, T)))
 	case *types.Struct:
 		// value structs: invariants of the fields (one level of nesting is enough for the code base)
 		si := x.structInfo(T)
